@@ -86,6 +86,7 @@ def check_C(S, p):
             sizes = rng.sample(range(1, 9), d) if d > 1 else [rng.randint(2, 20)]
         cs, smap = complete_callset(rng, sizes, rng.choice([5, 20, 60, 150, 300]))
         names = list(STATS_BY_DIM[d]) + (["king", "r0", "r1"] if kin else [])
+        rng.shuffle(names)          # values are read positionally: the order given to -s must be the order printed
         a = E.cli_create(E.encode(cs, rng.choice(E.CONTAINERS), rng), smap)
         b = cli.sfs(["stat", "-s", ",".join(names), "--precision", "12"], stdin=a.out)
         S.count("C_pipelines")
